@@ -7,7 +7,7 @@ import ast
 
 from sa import fd
 from sa.model import AnalysisError, walk_no_nested, norm, stmt_of
-from sa.util import module_resolver, self_calls, fact_atom, cmp_parts, const_value, bound_arg
+from sa.util import fact_call, module_resolver, self_calls, fact_atom, cmp_parts, const_value, bound_arg
 from sa.consteval import TOP
 from .roles import ClientRoles
 from .c10 import sender_sites
@@ -44,7 +44,7 @@ def run(ctx):
 
     def call_fact(opn, pol):
         def pred(fact):
-            e, p = fact_atom(fact)
+            e, p = fact_call(fact)
             return p is pol and isinstance(e, ast.Call) and any(e is c for c in ops[opn])
         return pred
 
